@@ -37,6 +37,23 @@ CHECKS = {
         technique="Lean 4 proof over a hand-written model + exhaustive differential correspondence (model driver vs real "
                   "WSGI callable, <=4/5 segments over 9 segment kinds x relative/absolute x route x method x 2 root settings)",
     ),
+    "C16": dict(
+        category="proof",
+        text="Lean theorems for ALL strings about the model of escape_identifier_name / Schema / Table / Path / SubQuery / "
+             "Column / SqlFluffTable.of / to_source_columns (unquoted names are case-insensitive; each quote style keeps case "
+             "and loses only the quotes; last-dot split; three-part limit; equal entities hash equally; the same spelling "
+             "gives the same column / table / schema at every creation site, incl. written-then-read) + exhaustive "
+             "correspondence of the model with the real functions on every string over a 9-character alphabet up to length "
+             "5/6, on SqlFluffTable.of and to_source_columns, eq/hash on real objects, and SQL-level spelling x position x "
+             "dialect runs judged implementation-vs-implementation",
+        design_ref="DESIGN.md §5 C16",
+        note=TB + ". The model describes the code with fixes/D20-*.patch and fixes/D21-*.patch applied; two residual "
+             "double-normalisation sites are recorded findings (D20-scalar-subquery, D20-unknown-qualifier). Assumed: ASCII "
+             "identifiers; sqlfluff's parse trees and sqlparse's remove_quotes as observed; SqlFluffTable.of is driven with "
+             "duck-typed segments in the direct part and with real trees in the SQL-level part.",
+        technique="Lean 4 proof over a hand-written model + exhaustive differential correspondence (model driver vs real "
+                  "functions) + metamorphic SQL-level check (same statement under the plain spelling, renamed)",
+    ),
 }
 
 CHECKS["C03"] = dict(
